@@ -101,6 +101,30 @@ def main():
             sa = op.serviceaction
             ents.append([k, op.name, op.value, [[sk, getattr(sa, sk)] for sk in sa.keys]])
         out["opcodes"][s] = ents
+    # names a command set does NOT list (listed by another set, or the same command in another CDB size): looking one up must either fail or
+    # give the operation code T10 assigns to THAT name — a lookup that falls back to a similar entry exposes a wrong value under a standard name
+    import re as _re
+    out["unlisted"] = []
+    allnames = set()
+    for s in ("spc", "sbc", "ssc", "smc", "mmc"):
+        for k in getattr(ec, s).keys:
+            allnames.add(k)
+            base = _re.sub(r"_(6|10|12|16|32)$", "", k)
+            allnames.add(base)
+            for sz in ("6", "10", "12", "16", "32"):
+                allnames.add(base + "_" + sz)
+    for s in ("spc", "sbc", "ssc", "smc", "mmc"):
+        enum = getattr(ec, s)
+        have = set(enum.keys)
+        for n in sorted(allnames - have):
+            try:
+                op = getattr(enum, n)
+            except AttributeError:
+                continue
+            except Exception as e:  # noqa
+                out["unlisted"].append([s, n, "exn", type(e).__name__])
+                continue
+            out["unlisted"].append([s, n, "ok", getattr(op, "value", None) if not isinstance(op, int) else op])
     out["status"] = [[k, getattr(ec.SCSI_STATUS, k)] for k in ec.SCSI_STATUS.keys]
     from pyscsi.pyscsi import scsi_sense as ss
     out["sense"] = dict(
